@@ -3,6 +3,7 @@ import NmVerif.Basic
 import NmVerif.Arr
 import NmVerif.Linalg
 namespace NmVerif.Driver.C16
+open NmVerif.MB
 open NmVerif NmVerif.Proto NmVerif.Linalg
 
 /-- operand data of the harness (`c16::val`): `lin` a[k]=k+1, b[k]=2k+3; `mix` a small pseudo-random positive integer -/
